@@ -13,6 +13,7 @@ from __future__ import annotations
 import itertools
 import json
 import math
+import re
 from fractions import Fraction
 from typing import Any
 
@@ -53,6 +54,10 @@ def gen_case(rng: common.Rng, in_scope: bool = True) -> dict[str, Any]:
     hist = []
     while len(hist) < n:
         x = (rng.randint(-3, 3), rng.randint(-3, 3))
+        if hist and rng.chance(0.15):
+            # a point nearly coincident with an earlier one (late iterates, finite-difference probes): another point
+            px = hist[rng.randrange(len(hist))]["x"]
+            x = (float(px[0]) + rng.pick([1, -1]) * 2.0**-30, px[1])  # exact in binary64, JSON-serialisable
         if x in pts:
             continue
         pts.add(x)
@@ -438,6 +443,11 @@ def oracle(case: dict[str, Any], obs: dict[str, Any]) -> list[tuple[str, str]]:
     # last point
     if obs.get("last_idx") != str(len(hist) - 1):
         bad.append(("last-point", "last_point is not the last recorded point"))
+    # "the feasibility flag ... [is] recorded for that very point": the flag of the last point is the feasibility of
+    # the last recorded entry (a point with a missing constraint value satisfies not every constraint)
+    m = re.search(r" last=([01]) ", " " + obs.get("line", "") + " ")
+    if m is not None and (m.group(1) == "1") != bool(feasible(hist[-1])):
+        bad.append(("last-point-flag", f"last_point.is_feasible is {m.group(1)} but the last recorded point is {'feasible' if feasible(hist[-1]) else 'not feasible'}"))
     return bad
 
 
